@@ -745,6 +745,8 @@ fn dict_token(rng: &mut Rng) -> Vec<Node> {
         "derive", "T", "Self", "self", "_", "__placeholder", "r#type", "r#fn", "Output", "struct",
         "enum", "union", "impl", "for", "where", "pub", "crate", "mut", "const", "fn", "u8", "String",
         "Option", "Vec", "H", "state", "this", "other", "f", "rhs", "lhs", "source", "o", "to_index",
+        // identifiers that are not ASCII (byte slicing / case mapping of names goes wrong on these)
+        "Ölçü", "名前", "ß", "éq", "Ω", "ǅx", "ﬁeld",
     ];
     match rng.below(12) {
         0 => vec![Node::Leaf(TokenTree::Punct(Punct::new('$', Spacing::Alone)))],
